@@ -228,38 +228,42 @@ ApplyBCs(v) ==
 
 NeedsApply(v) == bcDirty[bcOf[v]] # {} \/ valDirty[v]
 
-(* solvePDE(v, terms): entry check ; use cache ; store ; apply_BCs *)
-SolvePDE(v) ==
+(* solvePDE(v, terms): entry check ; use cache ; store ; apply_BCs.
+   `entry' tells whether the entry check re-applies the BCs: the code decides it from the
+   flags (NeedsApply); trace validation passes what the code was observed to do.          *)
+SolvePDEWith(v, entry) ==
   /\ alive[v]
-  /\ LET usedCache == IF NeedsApply(v) /\ precalc[v] THEN bcC[bcOf[v]] ELSE cacheFrom[v]
+  /\ LET usedCache == IF entry /\ precalc[v] THEN bcC[bcOf[v]] ELSE cacheFrom[v]
      IN  /\ use' = [var |-> v, cache |-> usedCache, bc |-> bcC[bcOf[v]], exists |-> usedCache # None]
          /\ IF usedCache = None
             THEN \* AttributeError: nothing is stored; the entry check may have run
-                 /\ IF NeedsApply(v) THEN Applied(v, intC[v])
+                 /\ IF entry THEN Applied(v, intC[v])
                     ELSE UNCHANGED <<ghostFrom, cacheFrom, bcDirty, valDirty>>
                  /\ UNCHANGED intC
             ELSE /\ intC' = [intC EXCEPT ![v] = FreshInt]
                  /\ Applied(v, FreshInt)
   /\ last' = [name |-> "SolvePDE", args |-> <<v>>]
   /\ UNCHANGED <<bcAlive, bcC, everShared, alive, bcOf, precalc>>
+SolvePDE(v) == SolvePDEWith(v, NeedsApply(v))
 
 (* r = solveExplicitPDE(v, dt, RHS): entry check on v ; new variable r SHARING v's BC object *)
-SolveExplicit(v, r) ==
+SolveExplicitWith(v, r, entry) ==
   /\ alive[v] /\ r \in FreeVars
   /\ alive' = [alive EXCEPT ![r] = TRUE]
   /\ bcOf' = [bcOf EXCEPT ![r] = bcOf[v]]
   /\ intC' = [intC EXCEPT ![r] = FreshInt]
   /\ precalc' = [precalc EXCEPT ![r] = TRUE]
   /\ ghostFrom' = [ghostFrom EXCEPT ![r] = <<FreshInt, bcC[bcOf[v]]>>,
-                                    ![v] = IF NeedsApply(v) THEN <<intC[v], bcC[bcOf[v]]>> ELSE @]
+                                    ![v] = IF entry THEN <<intC[v], bcC[bcOf[v]]>> ELSE @]
   /\ cacheFrom' = [cacheFrom EXCEPT ![r] = bcC[bcOf[v]],
-                                    ![v] = IF NeedsApply(v) /\ precalc[v] THEN bcC[bcOf[v]] ELSE @]
+                                    ![v] = IF entry /\ precalc[v] THEN bcC[bcOf[v]] ELSE @]
   /\ bcDirty' = [bcDirty EXCEPT ![bcOf[v]] = {}]
-  /\ valDirty' = [valDirty EXCEPT ![r] = FALSE, ![v] = FALSE]
+  /\ valDirty' = [valDirty EXCEPT ![r] = FALSE, ![v] = IF entry THEN FALSE ELSE @]
   /\ everShared' = [everShared EXCEPT ![bcOf[v]] = TRUE]
   /\ use' = NoUse
   /\ last' = [name |-> "SolveExplicit", args |-> <<v, r>>]
   /\ UNCHANGED <<bcAlive, bcC>>
+SolveExplicit(v, r) == SolveExplicitWith(v, r, NeedsApply(v))
 
 (* r = solveMatrixPDE(mesh, M, RHS): a new variable with its own default BC object *)
 SolveMatrix(r, b) ==
